@@ -1079,20 +1079,24 @@ class World:
             return None
         if k == "sigfree_opcodes":
             # a signature-free scriptSig made of opcodes (conditionals that try to swallow the scriptPubKey, stack tricks, ...)
-            cat = [[0x51, 0x00, 0x63], [0x51, 0x51, 0x64], [0x00, 0x63], [0x51, 0x64], [0x51, 0x00, 0x63, 0x51], [0x51, 0x63, 0x51, 0x67], [0x51], [0x51, 0x76], [0x74], [0x51, 0x69, 0x51],
-                   [0x00, 0x64, 0x51, 0x68, 0x00, 0x63], [0x51, 0x00, 0x63, 0x00, 0x63], [0x6A], [0x51, 0x6A], [0x51, 0x75, 0x51, 0x00, 0x63]]
+            cat = SIGFREE_CAT
             if a % 3 == 0:
                 r_ = plan_rng(a, "ops")
                 pool = [0x00, 0x51, 0x52, 0x63, 0x64, 0x67, 0x68, 0x69, 0x6A, 0x74, 0x75, 0x76, 0x77, 0x78, 0x7C, 0x82, 0x87, 0x88, 0x91, 0x92, 0x9A, 0x9B, 0xA9, 0xAA]
                 ops = [r_.choice(pool) for _ in range(r_.randrange(1, 6))]
             else:
                 ops = cat[(a // 3) % len(cat)]
-            tail = b""
-            if kind in ("p2sh_ms", "p2sh_p2wpkh", "p2sh_p2wsh_ms") and b % 2 == 0 and inp.redeem is not None:
-                tail = tm.push(inp.redeem)  # ... in front of the genuine redeem script push
             if kind in ("p2wpkh", "p2wsh_ms", "p2tr_key", "p2tr_script") and b % 3 == 0:
                 mi["witness"] = []
-            mi["script_sig"] = bytes(ops) + tail
+            if kind in ("p2sh_ms", "p2sh_p2wpkh", "p2sh_p2wsh_ms") and inp.redeem is not None:
+                # opcodes around the genuine redeem script push: in front of it, behind it (so that the redeem script is no longer
+                # the element directly followed by the scriptPubKey), on both sides, or instead of it
+                place = b % 4
+                red = tm.push(inp.redeem)
+                behind = bytes(cat[(a // 7) % len(cat)]) if place == 3 else bytes(ops)
+                mi["script_sig"] = {0: bytes(ops) + red, 1: red + bytes(ops), 2: bytes(ops), 3: bytes(ops) + red + behind}[place]
+                return "sigfree_opcodes_scriptsig" + ("" if place in (0, 2) else "_behind_redeem")
+            mi["script_sig"] = bytes(ops)
             return "sigfree_opcodes_scriptsig"
         if k == "wrong_script":
             # another (well-formed) redeem/witness script in place of the committed one
@@ -1288,6 +1292,10 @@ def generate(ch, tier, prop):
     return plan
 
 
+SIGFREE_CAT = [[0x51, 0x00, 0x63], [0x51, 0x51, 0x64], [0x00, 0x63], [0x51, 0x64], [0x51, 0x00, 0x63, 0x51], [0x51, 0x63, 0x51, 0x67], [0x51], [0x51, 0x76], [0x74], [0x51, 0x69, 0x51],
+                   [0x00, 0x64, 0x51, 0x68, 0x00, 0x63], [0x51, 0x00, 0x63, 0x00, 0x63], [0x6A], [0x51, 0x6A], [0x51, 0x75, 0x51, 0x00, 0x63], [0x76], [0x61], [0x51], [0x74], [0x82], [0x76, 0x76], [0x73]]
+
+
 TAMPER_BY_KIND = {
     "p2pkh": ["sigfree_opcodes", "flip_ss", "retag", "foreign_sig", "sigfree_scriptsig"],
     "p2sh_ms": ["sigfree_opcodes", "flip_ss", "retag", "drop_sig", "swap_sigs", "dup_sig", "foreign_sig", "sigfree_scriptsig", "wrong_script"],
@@ -1349,7 +1357,7 @@ def enumerate_plans(tier, prop, seed):
     reps = 1 if tier == "quick" else 6
     for kind in KINDS:
         for tk in ["none"] + TAMPER_BY_KIND[kind]:
-            for rep in range(reps if tk != "sigfree_opcodes" else (6 if tier == "quick" else 48)):
+            for rep in range(reps if tk != "sigfree_opcodes" else (8 if tier == "quick" else 48)):
                 n = 1 if kind in ("p2pkh", "p2wpkh", "p2sh_p2wpkh", "p2tr_key") else r.choice([2, 3])
                 spec = {"kind": kind, "txid": "%064x" % r.getrandbits(256), "vout": r.randrange(3), "sequence": 0xFFFFFFFE, "amount": 100000 + r.randrange(1000), "keys": r.sample(range(8), n)}
                 if n > 1:
@@ -1363,9 +1371,23 @@ def enumerate_plans(tier, prop, seed):
                     spec["annex"] = "50" + "%02x" % r.randrange(256)
                 t = {"op": "transmit", "i": 0}
                 if tk != "none":
-                    t["mut"] = {"kind": "flip" if tk == "flip_ss" else tk, "a": (r.randrange(10000) if tk != "sigfree_opcodes" else rep * 3 + 1 + (rep % 2)), "b": r.randrange(256), "region": "ss" if tk == "flip_ss" else "w"}
+                    t["mut"] = {"kind": "flip" if tk == "flip_ss" else tk, "a": (r.randrange(10000) if tk != "sigfree_opcodes" else rep * 3 + 1 + (rep % 2)), "b": (r.randrange(256) if tk != "sigfree_opcodes" else rep), "region": "ss" if tk == "flip_ss" else "w"}
                 yield {"version": 2, "locktime": 0, "inputs": [spec], "outputs": [{"amount": 90000, "spk": tm.spk_p2wpkh(bytes(20)).hex()}, {"amount": 5000, "spk": tm.spk_p2pkh(bytes(20)).hex()}],
                        "steps": [{"op": "sign", "i": 0, "ht": r.choice([0, 1, 3, 0x81]), "pick": r.randrange(1000)}, t], "enum": "catalogue"}
+    # signature-free opcode scriptSigs, exhaustively: every catalogue sequence x every placement around the redeem script (P2SH kinds),
+    # every catalogue sequence alone (other kinds); no signing needed, the tampering replaces the scriptSig
+    for kind in KINDS:
+        p2sh = kind in ("p2sh_ms", "p2sh_p2wpkh", "p2sh_p2wsh_ms")
+        for ci in range(len(SIGFREE_CAT)):
+            for place in (range(4) if p2sh else (1,)):
+                n = 1 if kind in ("p2pkh", "p2wpkh", "p2sh_p2wpkh", "p2tr_key") else 2
+                spec = {"kind": kind, "txid": "%064x" % r.getrandbits(256), "vout": 0, "sequence": 0xFFFFFFFE, "amount": 100000, "keys": r.sample(range(8), n)}
+                if n > 1 or kind == "p2tr_script":
+                    spec["m"] = n
+                    if kind == "p2tr_script":
+                        spec["internal"] = r.randrange(8)
+                yield {"version": 2, "locktime": 0, "inputs": [spec], "outputs": [{"amount": 90000, "spk": tm.spk_p2wpkh(bytes(20)).hex()}],
+                       "steps": [{"op": "transmit", "i": 0, "mut": {"kind": "sigfree_opcodes", "a": 3 * ci + 1 + 3 * len(SIGFREE_CAT) * 7 * ((ci * 5 + place) % 3), "b": place, "region": "ss"}}], "enum": "sigfree-opcodes"}
 
 
 def shrink(plan):
